@@ -8,6 +8,8 @@ import HcipyVerif.Lemmas.Czt
 import HcipyVerif.Lemmas.Axes
 import HcipyVerif.Lemmas.FftSelect
 import HcipyVerif.Lemmas.FftState
+import HcipyVerif.Lemmas.FftMulti
+import HcipyVerif.Lemmas.FftDecide
 import HcipyVerif.Lemmas.FftPlan
 import HcipyVerif.Lemmas.ZoomN
 import HcipyVerif.Model.FftWeights
@@ -464,6 +466,95 @@ theorem fft_core_no_clear_counterexample :
     coreStateNoClear false 1 2 2 (fun _ => (1 : ℤ)) (fun _ => 1) (fun _ => 0) 0
       ≠ coreStateNoClear false 1 2 2 (fun _ => (1 : ℤ)) (fun _ => 0) (fun _ => 0) 0 :=
   coreStateNoClear_history_dependent
+
+/-! ### several live objects, interleaved histories (`Model/FftMulti.lean`) -/
+
+/-- **Independence from the history of the whole population**: any number of `FastFourierTransform`
+objects alive at the same time (any sizes, equal or different padded sizes `M`, both
+`emulate_fftshifts` settings), any initial contents of their internal arrays, any interleaving of
+`forward`/`backward` calls on them: every call returns the value of the stateless model on a fresh
+object (`callFresh` = `core`, the definition the sum theorems above are about).  `runOwn` is executed by the
+driver op `C01 multi` and compared with a real population of objects (family `tie-multi`). -/
+theorem multi_object_history_independent {C : Type} [CommRing C] (cfg : ℕ → ObjCfg)
+    (h : ∀ i, 0 < (cfg i).M ∧ (cfg i).N ≤ (cfg i).M ∧ (cfg i).Mo ≤ (cfg i).M)
+    (ker : Bool → ℕ → ℤ → C) (bufs : Bufs C) (cs : List (MCall C)) :
+    runOwn cfg ker bufs cs = cs.map (callFresh cfg ker) :=
+  runOwn_eq_map cfg h ker cs bufs
+
+/-- the hypothesis is satisfiable (two objects sharing the padded size 4: `N = 2, q = 2` next to `N = 4, q = 1`) -/
+example : ∀ i, 0 < ((fun i => if i = 0 then (⟨false, 2, 4, 4⟩ : ObjCfg) else ⟨true, 4, 4, 3⟩) i).M ∧
+    ((fun i => if i = 0 then (⟨false, 2, 4, 4⟩ : ObjCfg) else ⟨true, 4, 4, 3⟩) i).N ≤
+      ((fun i => if i = 0 then (⟨false, 2, 4, 4⟩ : ObjCfg) else ⟨true, 4, 4, 3⟩) i).M ∧
+    ((fun i => if i = 0 then (⟨false, 2, 4, 4⟩ : ObjCfg) else ⟨true, 4, 4, 3⟩) i).Mo ≤
+      ((fun i => if i = 0 then (⟨false, 2, 4, 4⟩ : ObjCfg) else ⟨true, 4, 4, 3⟩) i).M := by
+  intro i; by_cases hi : i = 0 <;> simp [hi]
+
+/-- **Calls on other objects are irrelevant**: the results an object `i` returns inside an interleaved
+history are the results it returns when only its own calls are made (from any other array contents). -/
+theorem multi_object_other_calls_irrelevant {C : Type} [CommRing C] (cfg : ℕ → ObjCfg)
+    (h : ∀ i, 0 < (cfg i).M ∧ (cfg i).N ≤ (cfg i).M ∧ (cfg i).Mo ≤ (cfg i).M)
+    (ker : Bool → ℕ → ℤ → C) (bufs bufs' : Bufs C) (cs : List (MCall C)) (i : ℕ) :
+    ((cs.zip (runOwn cfg ker bufs cs)).filter (fun p => decide (p.1.obj = i))).map Prod.snd
+      = runOwn cfg ker bufs' (cs.filter (fun c => decide (c.obj = i))) := by
+  rw [runOwn_eq_map cfg h, runOwn_eq_map cfg h]
+  induction cs with
+  | nil => rfl
+  | cons c cs ih =>
+    by_cases hc : c.obj = i
+    · simp only [List.map_cons, List.zip_cons_cons, List.filter_cons, hc, decide_true, if_true, ih]
+    · simp only [List.map_cons, List.zip_cons_cons, List.filter_cons, hc, decide_false]
+      exact ih
+
+/-- a call rewrites only the called object's array -/
+theorem multi_object_buffers_private {C : Type} [CommRing C] (cfg : ℕ → ObjCfg) (bufs : Bufs C)
+    (c : MCall C) (i : ℕ) (hi : i ≠ c.obj) : callBufs cfg bufs c i = bufs i :=
+  callBufs_other cfg bufs c i hi
+
+/-- Work arrays taken from a pool keyed by the padded size, together with a per-object "my padding is still zero"
+flag (the seeded class): with two live objects of the same padded size, `A.forward(0)`, `B.backward(1)`,
+`A.forward(0)` makes `A` return `B`'s leftovers (`1` instead of the stateless value `0`). -/
+theorem Bad.sharedPool :
+    ((runPool (fun _ => ⟨false, 1, 2, 2⟩) (fun _ _ _ => (1 : ℤ)) ⟨fun _ _ => 0, fun _ => false⟩
+        [⟨0, false, fun _ => 0⟩, ⟨1, true, fun _ => 1⟩, ⟨0, false, fun _ => 0⟩]).map (fun r => r 0))
+      ≠ ([⟨0, false, fun _ => 0⟩, ⟨1, true, fun _ => 1⟩, ⟨0, false, fun _ => (0 : ℤ)⟩].map
+          (callFresh (fun _ => ⟨false, 1, 2, 2⟩) (fun _ _ _ => (1 : ℤ)))).map (fun r => r 0) := by
+  rw [runPool_leftovers]; decide
+
+/-- the same counterexample on the two executed front ends (`C01 multipool` vs `C01 multi`): two objects `N = 1`,
+`M = Mo = 2`, history `A.forward, B.backward, A.forward` on unit impulses — the pooled model and the per-object model
+disagree, so the correspondence with the real population (family `tie-multi`) tells them apart -/
+theorem Bad.sharedPool_executed :
+    multiPoolImpulse [⟨false, 1, 2, 2⟩, ⟨false, 1, 2, 2⟩] [(0, false, 0), (1, true, 0), (0, false, 0)] 0
+      ≠ multiImpulse [⟨false, 1, 2, 2⟩, ⟨false, 1, 2, 2⟩] [(0, false, 0), (1, true, 0), (0, false, 0)] 0 := by
+  decide +kernel
+
+/-! ### the float decisions of `__init__` (`Model/FftDecide.lean`; repaired by D65, D66) -/
+
+/-- the phase ramp of the output shift is skipped exactly when the shift is zero on every axis — the only
+case in which the multiplication is the identity (`shiftNeeded` is run by `C01 decide shift`) -/
+theorem shift_multiplier_skipped_iff_zero (s : List ℚ) : shiftNeeded s = false ↔ ∀ x ∈ s, x = 0 :=
+  shiftNeeded_false_iff s
+
+/-- the decision does not depend on the unit of the coordinates -/
+theorem shift_decision_scale_free (c : ℚ) (hc : c ≠ 0) (s : List ℚ) :
+    shiftNeeded (s.map (fun x => c * x)) = shiftNeeded s :=
+  shiftNeeded_scale c hc s
+
+/-- the zero-padding / cropping cut-out is omitted exactly when the two shapes are equal -/
+theorem cutout_omitted_iff_same_shape (M N : List ℕ) : cutoutNeeded M N = false ↔ M = N :=
+  cutoutNeeded_false_iff M N
+
+/-- D65: `np.allclose(shift, 0)` drops a quarter-pixel shift once the unit makes it smaller than `1e-8`,
+although the same shift in another unit (scaled by `2^30`) is applied -/
+theorem Bad.shiftDroppedOld :
+    shiftNeededOld [1 / 2 ^ 30] = false ∧ shiftNeededOld ([1 / 2 ^ 30].map (fun x => 2 ^ 30 * x)) = true ∧
+      shiftNeeded [1 / 2 ^ 30] = true := by
+  decide +kernel
+
+/-- D66: `np.allclose` on shapes: an axis of 100001 samples padded to 100002 is taken to need no cut-out -/
+theorem Bad.cutoutDroppedOld :
+    cutoutNeededOld [100002] [100001] = false ∧ cutoutNeeded [100002] [100001] = true := by
+  decide +kernel
 
 /-! ### MatrixFourierTransform: `precompute_matrices` / `allocate_intermediate` (`Model/MftState.lean`) -/
 
